@@ -23,6 +23,7 @@ import (
 	"github.com/emitter-io/emitter/internal/async"
 	"github.com/emitter-io/emitter/internal/message"
 	"github.com/emitter-io/emitter/internal/provider/logging"
+	"github.com/emitter-io/emitter/internal/verif"
 	"github.com/weaveworks/mesh"
 )
 
@@ -128,7 +129,9 @@ func (p *Peer) processSendQueue() {
 
 	// Swap the frame and split the frame in chunks of at most 10MB
 	// for gossip unicast to work.
+	verif.At("peer.flush.nonempty", p)
 	frame := p.swap()
+	verif.At("peer.flush.swapped", p)
 	for {
 		var chunk message.Frame
 		chunk, frame = frame.Split(maxByteFrameSize)
@@ -140,6 +143,7 @@ func (p *Peer) processSendQueue() {
 		if err := p.sender.GossipUnicast(p.name, buffer); err != nil {
 			logging.LogError("peer", "gossip unicast", err)
 		}
+		verif.At("peer.flush.sent", p)
 	}
 }
 
